@@ -417,3 +417,80 @@ def flow_rules(prog, R):
             R.add('SEEK-3', b, 'failed-seek-discards-buffer#%d' % n, not bad and bool(fail_exits), site(b, stt.line),
                   'seek can fail after trying to reposition the source and return with the old buffer content still in place: %s' % bool(bad))
     R.floor('SEEK-3', 2)
+    run_seek4(prog, R)
+
+
+# ---------------- SEEK-4 (added after seeded change C05-r3b)
+def _affine(prog, b, op, du, depth=0):
+    """value of an operand as (kind, const): kind 'L' = length of the reader buffer, 'x' = anything else;
+    constants added/subtracted are folded so that `pos + 1 <= len` and `pos <= len - 1` read like `pos < len`"""
+    rs = roots_of(b, op, du)
+    if len(rs) != 1 or depth > 6:
+        return ('x', 0)
+    r = rs[0]
+    if r[0] == 'call' and r[1].callee and r[1].callee.name == 'len' and r[1].args:
+        inner = roots_of(b, r[1].args[0], du, through_calls=identity_through)
+        if inner and all(q[0] == 'call' and is_buffer_call(prog, q[1].callee) for q in inner):
+            return ('L', 0)
+        return ('x', 0)
+    if r[0] == 'bin' and r[1].rv.j['op'] in ('Add', 'AddUnchecked', 'Sub', 'SubUnchecked'):
+        sgn = 1 if r[1].rv.j['op'].startswith('Add') else -1
+        a, c = r[1].rv.ops
+        cv = resolve_const_operand(b, c, du)
+        if cv and cv[0] == 'int':
+            k, n = _affine(prog, b, a, du, depth + 1)
+            return (k, n + sgn * cv[1])
+        av = resolve_const_operand(b, a, du)
+        if av and av[0] == 'int' and sgn == 1:
+            k, n = _affine(prog, b, c, du, depth + 1)
+            return (k, n + av[1])
+    return ('x', 0)
+
+
+def run_seek4(prog, R):
+    R.rule('SEEK-4', 'the branch of seek that returns without touching the source is entered only when the target offset is strictly below the length of the buffer (the byte at the target is in the buffer): a guard that also admits offset == length takes the shortcut into an empty, never-filled buffer and the reader then reports the end of the input')
+    for fmt in ('fasta', 'fastq'):
+        try:
+            b = prog.get('%s::Reader::seek' % fmt)
+        except KeyError:
+            R.anchor_missing('SEEK-4', '%s::Reader::seek' % fmt)
+            continue
+        du = DefUse(b)
+        srcseek = set(x for x, t in b.calls() if t.callee and t.callee.is_('std::io::Seek::seek'))
+        okret = [x for x in b.cfg.reachable if any(s.k == 'assign' and s.place.local == 0 and s.rv.k == 'agg' and s.rv.j.get('variant') == 'Ok' for s in b.blocks[x].stmts)]
+        near = [r for r in okret if r in b.cfg.reach_from(0, removed=srcseek, include_start=True)]
+        if not near:
+            # no shortcut at all: nothing to guard
+            R.add('SEEK-4', b, 'no-in-buffer-shortcut', True, site(b, b.span['lo']), 'every successful return repositions the source')
+            continue
+        for r in near:
+            guards = []
+            for x in b.cfg.reachable:
+                t = b.blocks[x].term
+                if t.k != 'switch':
+                    continue
+                rs = roots_of(b, t.discr, du)
+                if len(rs) != 1 or rs[0][0] != 'bin' or rs[0][1].rv.j['op'] not in ('Lt', 'Le', 'Gt', 'Ge'):
+                    continue
+                st = rs[0][1]
+                lhs = _affine(prog, b, st.rv.ops[0], du)
+                rhs = _affine(prog, b, st.rv.ops[1], du)
+                if (lhs[0] == 'L') == (rhs[0] == 'L'):
+                    continue
+                # which arm leads to the shortcut without the source seek?
+                arms = {}
+                for val, tgt in list(t.targets) + [(None, t.otherwise)]:
+                    arms.setdefault(r in b.cfg.reach_from(tgt, removed=srcseek, include_start=True), []).append(val)
+                if True not in arms or False not in arms:
+                    continue
+                taken_when_true = any(v is None or v != 0 for v in arms[True])
+                # value of the comparison at offset == length
+                op = st.rv.j['op']
+                ca, cb = lhs[1], rhs[1]
+                at_eq = {'Lt': ca < cb, 'Le': ca <= cb, 'Gt': ca > cb, 'Ge': ca >= cb}[op]
+                admits_eq = at_eq if taken_when_true else not at_eq
+                guards.append((x, st, admits_eq))
+            ok = bool(guards) and not any(g[2] for g in guards)
+            R.add('SEEK-4', b, 'shortcut-requires-offset-below-buffer-length', ok, site(b, (guards[0][1].line if guards else b.span['lo'])),
+                  'comparisons of the target offset with the buffer length guarding the shortcut: %d; one of them admits offset == length: %s' % (len(guards), any(g[2] for g in guards)))
+    R.floor('SEEK-4', 2)
